@@ -389,7 +389,12 @@ func vfC09WildPattern(rg *rand.Rand, d string) string {
 	first, rest := labels[0], strings.Join(labels[1:], ".")
 	for tries := 0; tries < 20; tries++ {
 		var p string
-		switch rg.Intn(9) {
+		switch rg.Intn(11) {
+		case 9:
+			// literal head and tail overlap: head ends with what the tail starts with (d itself must NOT match)
+			p = first + "*" + first[len(first)-1:] + "." + rest
+		case 10:
+			p = first + ".*." + first + "." + rest
 		case 0:
 			p = "*." + d
 		case 1:
@@ -903,6 +908,15 @@ func vfC09DeriveNames(rg *rand.Rand, rules []vfC09Rule, u *vfC09Universe) []stri
 			}
 			add(sb.String())
 			add(strings.ReplaceAll(p, "*", "")) // only decided when both readings agree
+			if j := strings.IndexByte(p, '*'); j >= 0 && strings.Count(p, "*") == 1 {
+				// names shorter than head+tail in which the literal head and tail overlap
+				head, tail := p[:j], p[j+1:]
+				for k := 1; k <= len(head) && k <= len(tail); k++ {
+					if strings.HasSuffix(head, tail[:k]) {
+						add(head + tail[k:])
+					}
+				}
+			}
 		}
 	}
 	for _, d := range u.Domains {
